@@ -268,6 +268,7 @@ CLAUSES = [
         shards_quick=4,
         required=("void", "attr-metachar", "text-metachar", "depth>=3"),
         rule="see RULE",
+        fuzz=100000,
     ),
     Clause("catalogue", body_catalogue, source="enum", enum=enum_catalogue, shards_quick=2, shards_thorough=4, rule="every case"),
 ]
